@@ -11,6 +11,11 @@ ND = -9999
 
 
 def axis(rng, n, regular):
+    if regular == 2:
+        # steps stamped inside the day (12:00, 10:30, ...): date-only calibration strings fall between steps of the same day
+        steps = np.cumsum(rng.integers(1, 12, n))
+        hours = rng.choice([6, 10, 12, 18], n)
+        return pd.DatetimeIndex([pd.Timestamp("2000-01-01") + pd.Timedelta(days=int(d), hours=int(h), minutes=30 * int(h == 10)) for d, h in zip(steps, hours)])
     if regular:
         return pd.date_range("2000-01-01", periods=n, freq="10D")
     steps = np.cumsum(rng.integers(1, 40, n))
@@ -33,7 +38,7 @@ def run(tier, rng, rep):
     rep.rule = "random axes and windows (seeded); distinct = distinct (check, axis, window, labels)"
     for it in range(25 if tier == "quick" else 200):
         t = int(rng.integers(6, 80))
-        tix = axis(rng, t, regular=bool(it % 2))
+        tix = axis(rng, t, regular=it % 3)
         cube = make_cube(rng, t)
         da = xr.DataArray(cube, dims=("y", "x", "time"), coords={"time": tix}, attrs={"nodata": ND})
         # pick begin / end: on a step, between steps, before / after the axis
@@ -47,19 +52,24 @@ def run(tier, rng, rep):
             return tix[i]
         begin = pick(0, t // 2)
         end = pick(t // 2, t)
+        if it % 3 == 2:
+            # date-only bounds (midnight) on an axis stamped inside the day
+            begin = pd.Timestamp(begin).normalize()
+            end = pd.Timestamp(end).normalize()
+        fmt = (lambda v: pd.Timestamp(v).strftime("%Y-%m-%d")) if it % 3 == 2 else str
         if rng.random() < 0.15:
             begin = tix[0] - pd.Timedelta(days=100)
         if rng.random() < 0.15:
             end = tix[-1] + pd.Timedelta(days=100)
         pos = window_positions(tix, begin, end)
-        case = {"t": t, "begin": str(begin), "end": str(end), "n_in_window": len(pos), "regular": bool(it % 2)}
+        case = {"t": t, "begin": str(begin), "end": str(end), "n_in_window": len(pos), "axis_kind": int(it % 3)}
         rep.case("window", case, nontrivial=len(pos) >= 2)
-        a, b = get_calibration_indices(tix, (begin, end))
+        a, b = get_calibration_indices(tix, (fmt(begin), fmt(end)))
         if list(range(a, b)) != pos:
             rep.violation("window.indices", "get_calibration_indices", case, f"indices [{a},{b}) but steps inside the window are {pos[:3]}..{pos[-3:]}")
             continue
         try:
-            res = da.hdc.algo.spi(calibration_begin=str(begin), calibration_end=str(end))
+            res = da.hdc.algo.spi(calibration_begin=fmt(begin), calibration_end=fmt(end))
         except ValueError:
             if len(pos) >= 2:
                 rep.violation("window.raises", "PixelAlgorithms.spi", case, "ValueError for a valid window")
@@ -85,7 +95,7 @@ def run(tier, rng, rep):
             gcase = dict(case, ng=ng, labels=nm)
             rep.case("groups", gcase)
             try:
-                results[nm] = da.hdc.algo.spi(calibration_begin=str(begin), calibration_end=str(end), groups=lab).values
+                results[nm] = da.hdc.algo.spi(calibration_begin=fmt(begin), calibration_end=fmt(end), groups=lab).values
             except ValueError:
                 results[nm] = None
         vals = list(results.values())
@@ -101,7 +111,7 @@ def run(tier, rng, rep):
             sel = np.flatnonzero(labels_int == g)
             sub = xr.DataArray(cube[:, :, sel], dims=("y", "x", "time"), coords={"time": tix[sel]}, attrs={"nodata": ND})
             try:
-                want = sub.hdc.algo.spi(calibration_begin=str(begin), calibration_end=str(end)).values
+                want = sub.hdc.algo.spi(calibration_begin=fmt(begin), calibration_end=fmt(end)).values
             except ValueError:
                 continue
             if not np.array_equal(vals[0][:, :, sel], want):
